@@ -858,7 +858,18 @@ impl Sim {
 
     pub fn step(&mut self, op: &Op) -> bool {
         self.activate();
-        let r = self.step_inner(op);
+        // a panic that escapes the per-call guards was raised while the checker itself asked the application
+        // something (or inside a builder): the simulator's panic is a violation, the checker's own is not
+        let r = match catch_unwind(AssertUnwindSafe(|| self.step_inner(op))) {
+            Ok(r) => r,
+            Err(p) => {
+                if crate::harness::last_panic_was_in_checker() {
+                    std::panic::resume_unwind(p);
+                }
+                self.v(&["C01", "C09", "C10", "C14", "C17"], "panic", format!("the simulator panicked while the checker queried or drove it: {}", panic_message(&p)));
+                false
+            }
+        };
         self.dig.write_u64(self.app.storage().digest());
         let bi = self.app.block_info();
         self.dig.write_u64(bi.height);
